@@ -18,7 +18,7 @@ MatchC01(e, p) ==
   /\ e.ok => /\ SummaryEq(p.st, e.r)
              /\ \A i \in DOMAIN e.r.spends : e.r.spends[i].ecost = e.clvm
              /\ e.r.vsig = ~NoSig(p.in)
-MatchC02(e, p) == e.ok => ObsAccepted(e.r)
+MatchC02(e, p) == e.ok => ObsAccepted(e.r) /\ ObsDeclaredFee(e.r, DeclaredFeeOfTree(p.in.tree))
 MatchC04(e, p) ==
   /\ e.ok => /\ p.acc => e.r.cost = CostOf(p.in, p.st)
              /\ Le(e.r.cost, e.max)
